@@ -1332,6 +1332,12 @@ func (r *runner) generate(g *gen) {
 		}
 	}
 
+	// ---- one regex key text on both collection families (ARGS family: kept as written; every other
+	// collection: literal text lower-cased, escapes kept), in both orders, in one rule, across rules,
+	// across Include files and across configurations of this process (the regex cache is process-wide);
+	// every key text is fresh (unique number) so that the first use in the process is the one tested ----
+	r.rxFold(g)
+
 	// ---- line-assembly corner cases ----
 	rule := func(id int) string { return fmt.Sprintf("SecRule ARGS \"@rx a\" \"id:%d,deny\"", id) }
 	lineFixed := []string{
@@ -1358,4 +1364,81 @@ func (r *runner) generate(g *gen) {
 	r.addLongLine(rule(1)+"\n# ", 'c', 65534, "\n"+rule(2)+"\n") // 65536 bytes: too long
 	r.addLongLine(rule(1)+"\n# ", 'c', 65534, "")                   // last line without line feed
 	r.addText(map[string]string{"a.conf": rule(1) + " \\"}, "Include a.conf\n\"x\"\n", "line", "")
+}
+
+var rxFoldSeq int
+
+// checkFold: implementation-side oracle for keys without escapes
+func (r *runner) checkFold(o observation, key string, cj caseJSON) {
+	if o.Class != "ok" || strings.Contains(key, "\\") {
+		return
+	}
+	r.oracle++
+	want := func(name string) string {
+		if caseSensitiveVar(name) {
+			return key
+		}
+		return strings.ToLower(key)
+	}
+	for _, d := range o.Dumps {
+		for _, v := range d.Variables {
+			if v.HasRx && v.Rx != want(v.Name) {
+				r.fail("c16-regex-key-fold", fmt.Sprintf("rule %d: %s:/%s/ compiled to the regex %q, expected %q (case folding must depend on the collection only, not on which rule used the key text first)", d.ID, v.Name, key, v.Rx, want(v.Name)), cj)
+				return
+			}
+			for _, e := range v.Exceptions {
+				if e.HasRx && e.Rx != want(v.Name) {
+					r.fail("c16-regex-key-fold", fmt.Sprintf("rule %d: !%s:/%s/ compiled to the regex %q, expected %q", d.ID, v.Name, key, e.Rx, want(v.Name)), cj)
+					return
+				}
+			}
+		}
+	}
+}
+
+func (r *runner) rxFold(g *gen) {
+	cs := []string{"ARGS", "ARGS_GET", "ARGS_NAMES", "ARGS_POST", "ARGS_GET_NAMES"}
+	ci := []string{"REQUEST_HEADERS", "REQUEST_COOKIES", "TX", "FILES", "RESPONSE_HEADERS", "GEO"}
+	templates := []string{"^X-Foo%d", "Ab%dC|De", "%dUPPER", "^X-\\D+Y%d", "\\p{Lu}A%d", "\\PLb%dQ", "\\x{41}Z%d", "A\\\\B%d", "\\QAb%d\\E", "^Cookie\\/V%d$", "\\SK%d\\W"}
+	fresh := func() string {
+		rxFoldSeq++
+		return fmt.Sprintf(templates[g.r.Intn(len(templates))], rxFoldSeq)
+	}
+	run := func(files map[string]string, text, key string) {
+		o := r.addText(files, text, "rxfold", "")
+		fh := map[string]string{}
+		for n, c := range files {
+			fh[n] = hx(c)
+		}
+		r.checkFold(o, key, caseJSON{Kind: "text", Files: fh, Text: hx(text), Readable: readable(text)})
+	}
+	rule := func(id int, targets string) string {
+		return fmt.Sprintf("SecRule %s \"@rx a\" \"id:%d,pass\"", targets, id)
+	}
+	n := r.cfg.Pick(24, 400)
+	for i := 0; i < n; i++ {
+		a, b := g.pick(cs), g.pick(ci)
+		// two rules, ARGS family first / other collection first (fresh key text each time)
+		k := fresh()
+		run(nil, rule(1, a+":/"+k+"/")+"\n"+rule(2, b+":/"+k+"/|"+b+"|!"+b+":/"+k+"/")+"\n", k)
+		k = fresh()
+		run(nil, rule(1, b+":/"+k+"/|"+b+"|!"+b+":/"+k+"/")+"\n"+rule(2, a+":/"+k+"/|"+a+"|!"+a+":/"+k+"/")+"\n", k)
+		// one rule, both orders
+		k = fresh()
+		run(nil, rule(1, a+":/"+k+"/|"+b+":/"+k+"/|"+a+"|"+b+"|!"+a+":/"+k+"/|!"+b+":/"+k+"/")+"\n", k)
+		k = fresh()
+		run(nil, rule(1, b+"|"+a+"|!"+b+":/"+k+"/|!"+a+":/"+k+"/|"+b+":'/"+k+"/'|"+a+":'/"+k+"/'")+"\n", k)
+		// split across Include files, both orders
+		k = fresh()
+		run(map[string]string{"a.conf": rule(1, a+":/"+k+"/") + "\n"}, "Include a.conf\n"+rule(2, b+":/"+k+"/")+"\n", k)
+		k = fresh()
+		run(map[string]string{"b.conf": rule(1, b+":/"+k+"/") + "\n"}, "Include b.conf\n"+rule(2, "!"+a+":/"+k+"/|"+a)+"\n"+rule(3, a+":/"+k+"/")+"\n", k)
+		// two configurations (two WAFs) of this process, both orders
+		k = fresh()
+		run(nil, rule(1, a+":/"+k+"/")+"\n", k)
+		run(nil, rule(1, b+":/"+k+"/")+"\n", k)
+		k = fresh()
+		run(nil, rule(1, b+":/"+k+"/")+"\n", k)
+		run(nil, rule(1, a+":/"+k+"/")+"\n", k)
+	}
 }
